@@ -1933,15 +1933,10 @@ class Scheduler:
             assert job.was_cached
 
             # Need to maintain the subtree_tasks if this was a cache hit.
-            check_valid = job.get_option(
-                "check_valid", CacheCheckValid.FULL, as_type=CacheCheckValid
-            )
-            if check_valid == CacheCheckValid.FULL:
-                job.calc_subtree_tasks()
-            else:
-                # If we did ultimate reduction caching, then we need to query the
-                # backend to determine subtree tasks.
-                job.subtree_tasks = self._get_subtree_tasks(job)
+            # Since the call hash is known, the result came from CSE or from ultimate
+            # reduction caching. In both cases the child jobs were not re-evaluated, so we
+            # need to query the backend to determine the tasks beneath this call.
+            job.subtree_tasks = job.calc_subtree_tasks() | self._get_subtree_tasks(job)
         else:
             # Ignore failed child jobs, which have no call_hash.
             child_call_hashes = [
